@@ -138,6 +138,8 @@ type c40model struct {
 	// statement does not say whether they count against the session window, so a server may or
 	// may not account (and return) them
 	ambiguous int
+	// set by the selord family: names the situation in which session window went missing
+	leakHint string
 }
 
 // c40exp is what the event just executed obliges the server to.
@@ -626,9 +628,14 @@ func c40invariants(r *vk.Run, id string, hist []string, e *s3env, m *c40model) {
 		lost := out - debt
 		cls := "live-streams"
 		switch {
+		case m.leakHint != "":
+			cls = m.leakHint
 		case unreadDead > 0 && lost > refusedDead:
 			cls = "closed-stream-unread"
 		case refusedDead > 0:
+			if refCls == "" {
+				refCls = "unclassified"
+			}
 			cls = "refused-data(" + refCls + ")"
 		}
 		r.Violation("session-window-leak:"+cls, id, fmt.Sprintf("session: client sent %d in-window octets, server credited back %d, outstanding %d but only %d octets are buffered for live streams (unread octets of dead streams %d [%s], octets of refused in-window frames %d [%s]) after %v: a conforming client has lost %d octets of session window for good", m.totalFC, m.wu0, out, debt, unreadDead, deadCls, refusedDead, refCls, hist, lost))
@@ -770,4 +777,6 @@ func TestVerifC40(t *testing.T) {
 		r.States(n)
 		r.Set("family_"+f.name, fmt.Sprintf("depth %d, executions %d (this shard), complete=%v", depth, n, complete))
 	}
+	c40selord(t, r)
+	c40race(t, r)
 }
